@@ -166,10 +166,13 @@ impl S3 {
     /// the body of `endtx`: all `ops` in one `atomically_with_err` block (callable from several threads)
     pub fn run_tx(&self, ops: &[Vec<String>]) -> String {
         let r = catch_unwind(AssertUnwindSafe(|| {
+            let ignore = ops.first().is_some_and(|o| o[0] == "#ignore");
+            let ops = if ignore { &ops[1..] } else { ops };
             atomically_with_err(|t| {
                 let mut outs = vec![];
                 for op in ops {
                     match self.tx_op(t, op) {
+                        Some(Err(TransactionError::Abort(e))) if ignore => outs.push(e),
                         Some(r) => outs.push(r?),
                         None => return Err(TransactionError::Abort("bad-op".to_string())),
                     }
@@ -538,6 +541,41 @@ impl S3 {
                 let r = catch_unwind(AssertUnwindSafe(|| self.map.remove_free_dart(x)));
                 if r.is_ok() { "ok".into() } else { "panic".into() }
             }
+            // two orbits ALIVE AT ONCE on this thread, consumed alternately (`orbitz`) or nested (`orbitn`): the iterators
+            // returned by `orbit()` are lazy, each must own its traversal state
+            ["orbitz", pa, a, pb, b] => {
+                let (Some(pa), Some(a), Some(pb), Some(b)) = (policy(pa), d(a), policy(pb), d(b)) else { return "bad-op".into() };
+                match catch_unwind(AssertUnwindSafe(|| {
+                    let mut oa = self.map.orbit(pa, a);
+                    let mut ob = self.map.orbit(pb, b);
+                    let (mut va, mut vb) = (vec![], vec![]);
+                    loop {
+                        let (x, y) = (oa.next(), ob.next());
+                        if x.is_none() && y.is_none() {
+                            break;
+                        }
+                        va.extend(x);
+                        vb.extend(y);
+                    }
+                    format!("ok {} | {}", nats(va), nats(vb))
+                })) {
+                    Ok(s) => s,
+                    Err(_) => "panic".into(),
+                }
+            }
+            ["orbitn", pa, a, pb] => {
+                let (Some(pa), Some(a), Some(pb)) = (policy(pa), d(a), policy(pb)) else { return "bad-op".into() };
+                match catch_unwind(AssertUnwindSafe(|| {
+                    let mut parts = vec![];
+                    for x in self.map.orbit(pa, a) {
+                        parts.push(nats(self.map.orbit(pb.clone(), x)));
+                    }
+                    format!("ok {}", parts.join(" | "))
+                })) {
+                    Ok(s) => s,
+                    Err(_) => "panic".into(),
+                }
+            }
             ["orbitnt", pol, x] => {
                 let (Some(pol), Some(x)) = (policy(pol), d(x)) else { return "bad-op".into() };
                 match catch_unwind(AssertUnwindSafe(|| nats(self.map.orbit(pol, x)))) {
@@ -567,6 +605,14 @@ impl S3 {
             ["tx"] => {
                 self.in_tx = true;
                 self.tx_ops.clear();
+                "ok".into()
+            }
+            // `txi … endtx`: a user transaction that HANDLES the refusals of its calls itself (an `Abort` returned by an
+            // operation is swallowed, its text becomes the result of that operation) and commits at the end
+            ["txi"] => {
+                self.in_tx = true;
+                self.tx_ops.clear();
+                self.tx_ops.push(vec!["#ignore".to_string()]);
                 "ok".into()
             }
             _ => {
